@@ -346,6 +346,16 @@ class C20(Prop):
                              "do m load,/c20/odd/a", "do u1a seteuid,s:Root", "do u1a load,/c20/u1/b", "do u1a load,/c20/root/a",
                              "do u2a seteuid,s:backbone", "do u2a load,/c20/bb/a", "do u2a load,/c20/u2/b", "do odda seteuid,s:u1",
                              "pol cf u1 s:u1", "do odda load,/c20/u1/c", "do odda export,u1b", "do m seteuid,s:root", "do m load,/c20/root/b"])
+        # ---- round 6: inherit - /c20/u1/i.c inherits /c20/u2/a: load_object loads the inherited file first (same current_object: euid test,
+        # valid_object, creator_file, create() of its own) and then starts again (test repeated)
+        mk("inherit", ["do m load,/c20/u1/a", "do u1a load,/c20/u1/i", "do u1a seteuid,s:u1", "do u1a load,/c20/u1/i", "do u1a load,/c20/u1/i",
+                       "do m dest,u1i", "do m clone,c1,/c20/u1/i", "do m load,/c20/u1/i", "do m clone,c1,/c20/u1/i", "do m dest,u1i",
+                       "do m dest,u2a", "pol cf u2 err", "do u1a load,/c20/u1/i", "pol cf u2 s:u2", "do u1a call,/c20/u1/i",
+                       "do m dest,u1i", "do m dest,u2a", "pol vo u2 i:0", "do u1a load,/c20/u1/i", "pol vo u2 -",
+                       "script /c20/u2/a reload,u1a", "do u1a seteuid,s:u1", "do u1a load,/c20/u1/i", "do u1a seteuid,s:u1",
+                       "do u1a load,/c20/u1/i", "do m dest,u1i", "do m dest,u2a", "script /c20/u2/a load,/c20/u1/i",
+                       "do m load,/c20/u1/i", "script /c20/u1/i seteuid,s:zed;load,/c20/bb/a", "do m dest,u1i", "do m dest,u2a",
+                       "script /c20/u2/a -", "do m hb,load,/c20/u1/i", "pol co odd t:/c20/u1/i", "do m load,/c20/odd/v1"])
         # ---- round 6: master::valid_object - asked about every new blueprint before creator_file; refusal destructs it again
         mk("valid-object", ["pol vo u1 i:0", "do m load,/c20/u1/a", "do m clone,c1,/c20/u1/a", "pol vo u1 i:1", "do m load,/c20/u1/a",
                             "do m clone,c1,/c20/u1/b", "pol vo u2 err", "do m load,/c20/u2/a", "do m load,/c20/u2/a", "pol vo u2 s:ok",
@@ -520,6 +530,8 @@ class C20(Prop):
             return rng.choice(ks)
 
         def path():
+            if rng.chance(1, 14):
+                return "/c20/u1/i"          # inherits /c20/u2/a
             if rng.chance(1, 25):
                 return "/c20/%s/%s" % (rng.choice(DIRS + ["zz"]), rng.choice(["nofile", "x"]))
             if virt_dirs and rng.chance(1, 4):
@@ -649,7 +661,7 @@ class C20(Prop):
              "noeuid_clone_error": 0, "compile_object_calls": 0, "virtual_handed_out": 0, "funptr_ops": 0, "funptr_noeuid_refused": 0,
              "master_reloads": 0, "master_reload_refused": 0, "export_onto_self": 0, "nested_ops": 0, "nested_creations": 0, "nested_noeuid_refused": 0, "max_nesting": 0, "backbone_grants": 0, "policy_errors": 0, "nobj": 0, "reloads": 0,
              "crash": 0, "cfg_nobb": 0, "cfg_noroot": 0, "cfg_novb": 0, "cfg_simul": 0, "simul_actor_ops": 0, "simul_dest_error": 0, "cf_callback_drops": 0,
-             "bind_ops": 0, "bind_asked": 0, "bind_denied": 0, "valid_object_asked": 0, "valid_object_denied": 0}
+             "bind_ops": 0, "bind_asked": 0, "bind_denied": 0, "valid_object_asked": 0, "valid_object_denied": 0, "inherit_loads_parent_first": 0}
         alias_ops = 0
         driven_ops = 0
         foreign = {"load": 0, "clone": 0, "virtual": 0, "backbone": 0}
@@ -690,6 +702,8 @@ class C20(Prop):
                 elif t[0] == "co":
                     h["compile_object_calls"] += 1
                 elif t[0] == "cf":
+                    if cur and cur.endswith(",/c20/u1/i") and len(t) > 1 and t[1] == "/c20/u2/a":
+                        h["inherit_loads_parent_first"] += 1
                     pend_cf = t[2] if len(t) > 2 else None
                     if pend_cf == "err":
                         h["cf_error"] += 1
